@@ -14,6 +14,9 @@ pub fn run_property(ctx: &Ctx) -> Option<Report> {
             r.assume("keys/values from small alphabets incl. empty and multi-byte; grace period 10 s; virtual clock");
             r.assume("whether deleting an already deleted key, or delete-after-ttl on an already marked key, allocates a version is left open by the statement: both accepted");
             kv::run(ctx, &mut r, "C06");
+            // replicas inside cluster histories (resets, catch-ups): a marked entry held for a
+            // full grace period does not survive a GC pass
+            sim::run(ctx, &mut r, Monitor::C06, 60_000, 1_000_000);
             r
         }
         "C15" => {
@@ -76,6 +79,9 @@ pub fn run_property(ctx: &Ctx) -> Option<Report> {
             sim::run(ctx, &mut r, mon, quick, thorough);
             if mon == Monitor::C12 {
                 sim::run_memory(ctx, &mut r);
+            }
+            if mon == Monitor::C05 {
+                pairs::run_c05_self(ctx, &mut r);
             }
             if mon == Monitor::C16 {
                 // the same isolation on the real UDP transport (foreign SYN -> exactly BadCluster)
@@ -168,7 +174,10 @@ pub fn run_property(ctx: &Ctx) -> Option<Report> {
 
 pub fn replay_property(ctx: &Ctx, sub: &str, case: &serde_json::Value) -> SubResult {
     match ctx.prop.as_str() {
-        "C06" => kv::replay(ctx, sub, case, "C06"),
+        "C06" => match sub {
+            "histories" => sim::replay(ctx, sub, case, Monitor::C06),
+            _ => kv::replay(ctx, sub, case, "C06"),
+        },
         "C15" => match sub {
             "drop-during-dispatch" => listen::replay_drop_race(ctx, sub, case),
             _ => listen::replay(ctx, sub, case),
@@ -200,7 +209,10 @@ pub fn replay_property(ctx: &Ctx, sub: &str, case: &serde_json::Value) -> SubRes
         },
         "C02" => sim::replay(ctx, sub, case, Monitor::C02),
         "C03" => sim::replay(ctx, sub, case, Monitor::C03),
-        "C05" => sim::replay(ctx, sub, case, Monitor::C05),
+        "C05" => match sub {
+            "stale-deltas-about-self" => pairs::replay_c05_self(ctx, sub, case),
+            _ => sim::replay(ctx, sub, case, Monitor::C05),
+        },
         "C12" => match sub {
             "removed-member-memory" => sim::replay_memory(ctx, sub, case),
             _ => sim::replay(ctx, sub, case, Monitor::C12),
